@@ -161,6 +161,13 @@ class Env:
         self.counters[key] = self.counters.get(key, 0) + 1
         return self.counters[key]
 
+    def owes(self) -> bool:
+        """Does the environment still owe the system something (an answer, an event) at the end?
+        Liveness ('eventually') clauses are only judged on executions where it does not."""
+        if any(r.state in ('new', 'applied') for r in self.world.pending):
+            return True
+        return any(self.world.stream_next(s) is not None for s in self.world.open_streams())
+
     def events_of(self, kind: str) -> list[tuple[float, dict[str, Any]]]:
         return [(t, p) for t, k, p in self.obs if k == kind]
 
